@@ -141,7 +141,7 @@ def burst_executions(emu, every=1, offset=0):
     cores' write queues), after another instance has created, played and closed a chip of the same core: what the
     cores keep in write queues must not let heap left behind by anybody reach the chip."""
     hb = [create(emu, 44100, 1), on(64, 1), gen(300), {"e": "Close"}]
-    for q, extra in enumerate(range(4, 64, 3)):
+    for q, extra in enumerate(list(range(0, 16)) + list(range(16, 64, 6))):      # one pair costs about 42 writes: step 1 near the queue limits
         if q % every != offset % every:
             continue
         ha = [create(emu, 44100, 1)] + [on(40 + 3 * i, i % 3) for i in range(6)]
